@@ -629,3 +629,80 @@ Definition make_pair_member_m (wrapped : option bool) : ty :=
    get<T>(pair) / get<T>(tuple) are declared as friends of tuple but never defined *)
 Definition tuple_structured_binding_m : bool := false.
 Definition get_by_type_m (is_pair : bool) : bool := false.
+
+(* ================================================================================================ *)
+(** * element transfer on construction: pair / tuple constructors, make_pair, make_tuple, forward_as_tuple *)
+(* what happens to one element: a new object is copy- (false) or move- (true) constructed from the argument's object,
+   or the element is a reference bound to the argument's object *)
+Inductive built := Constructed (moved : bool) | Aliased.
+(* language: direct-initialisation of a member declared with kind K from an expression of category e.  An object of a
+   type with both constructors is move-constructed from a non-const rvalue and copy-constructed otherwise
+   ([over.match.best]); a reference member binds ([dcl.init.ref]) or the initialisation is ill-formed *)
+Definition init_elem (K e : ty) : option built :=
+  match rf K with
+  | RNone => Some (Constructed (negb (is_lref e) && negb (cst e)))
+  | _ => if binds K e then Some Aliased else None
+  end.
+(* the parameter type [T const&] for a member type T of kind K (reference collapsing; const on a reference is ignored) *)
+Definition cref_param (K : ty) : ty := add_lref (add_const K).
+Definition first_some {X} (a b : option X) : option X := match a with Some x => Some x | None => b end.
+
+(** ** pair.hpp constructors *)
+(* pair(T1 const& t1, T2 const& t2) requires is_copy_constructible_v<T1> : first(t1) *)
+Definition pair_ctor_cref_m (K a : ty) : option built :=
+  let P := cref_param K in
+  if binds P a then init_elem K (named P) else None.
+(* template pair(U1&& x, U2&& y) requires is_constructible_v<T1, U1&&> : first(etl::forward<U1>(x)) *)
+Definition pair_ctor_fwd_m (K a : ty) : option built :=
+  do e <- perfect_fwd a; init_elem K e.
+(* language ([over.match.best]): both take the argument by reference binding with an identity conversion; the non-template
+   constructor wins only the tie, i.e. for a const lvalue argument; otherwise the forwarding template is the better match *)
+Definition pair_ctor_m (K a : ty) : option built :=
+  if is_lref a && cst a then first_some (pair_ctor_cref_m K a) (pair_ctor_fwd_m K a)
+  else first_some (pair_ctor_fwd_m K a) (pair_ctor_cref_m K a).
+(* pair(pair<U1,U2> const& p) requires is_constructible_v<T1, U1 const&> : first(p.first) *)
+Definition pair_conv_copy_m (dk sk : ty) : option built := init_elem dk (member_lv true sk).
+(* pair(pair<U1,U2>&& p) requires is_constructible_v<T1, U1&&> : first(etl::forward<U1>(p.first)) *)
+Definition pair_conv_move_m (dk sk : ty) : option built :=
+  do e <- forward_e sk (member_lv false sk); init_elem dk e.
+(* language: a non-const rvalue source prefers the && overload when its constraint holds; everything else can only bind
+   to the const& overload *)
+Definition pair_conv_ctor_m (dk sk sc : ty) : option built :=
+  if negb (is_lref sc) && negb (cst sc) then first_some (pair_conv_move_m dk sk) (pair_conv_copy_m dk sk)
+  else pair_conv_copy_m dk sk.
+(* make_pair(T1&& t, T2&& u) -> pair<unwrap_ref_decay_t<T1>, ...> { return {etl::forward<T1>(t), etl::forward<T2>(u)}; } *)
+Definition make_pair_transfer_m (a : ty) : option built :=
+  do e <- perfect_fwd a; pair_ctor_m (mkty false RNone) e.
+
+(** ** tuple.hpp constructors *)
+(* tuple(Args&&... args) : _impl{etl::forward<Args>(args)...}
+   -> tuple_impl(Args&&... args) : tuple_leaf<Idx,Ts>{etl::forward<Args>(args)}...
+   -> tuple_leaf(Args&&... args) : _value{etl::forward<Args>(args)...} *)
+Definition tuple_ctor_fwd_m (K a : ty) : option built :=
+  do e1 <- perfect_fwd a; do e2 <- perfect_fwd e1; do e3 <- perfect_fwd e2; init_elem K e3.
+(* tuple(Ts const&... args) requires is_copy_constructible_v<Ts> : _impl(args...)
+   -> tuple_impl(Ts const&... args) : tuple_leaf<Idx,Ts>(args)...
+   -> tuple_leaf(Args&&... args) [Args = Ts const&] : _value{etl::forward<Args>(args)...} *)
+Definition tuple_ctor_cref_m (K a : ty) : option built :=
+  let P := cref_param K in
+  if binds P a && binds P (named P) then
+    do c <- init_elem K (named P);                 (* requires is_copy_constructible_v<Ts> *)
+    do e <- perfect_fwd (named P); init_elem K e
+  else None.
+Definition tuple_ctor_m (K a : ty) : option built :=
+  if is_lref a && cst a then first_some (tuple_ctor_cref_m K a) (tuple_ctor_fwd_m K a)
+  else first_some (tuple_ctor_fwd_m K a) (tuple_ctor_cref_m K a).
+(* all elements: both constructors require sizeof...(Ts) == sizeof...(Args) *)
+Fixpoint tuple_ctor_all_m (Ks args : list ty) : option (list built) :=
+  match Ks, args with
+  | [], [] => Some []
+  | K :: Ks', a :: args' => do r <- tuple_ctor_m K a; do rs <- tuple_ctor_all_m Ks' args'; Some (r :: rs)
+  | _, _ => None
+  end.
+(* make_tuple(Args&&... args) { return tuple<unwrap_decay_t<Args>...>(etl::forward<Args>(args)...); } *)
+Definition make_tuple_transfer_m (a : ty) : option built :=
+  do e <- perfect_fwd a; tuple_ctor_m (mkty false RNone) e.
+(* forward_as_tuple(Args&&... args) -> tuple<Args&&...> { return tuple<Args&&...>{etl::forward<Args>(args)...}; } *)
+Definition forward_as_tuple_m (a : ty) : option (ty * built) :=
+  let K := add_rref (deduce_fwd a) in
+  do e <- perfect_fwd a; do r <- tuple_ctor_m K e; Some (K, r).
